@@ -543,7 +543,8 @@ def fpointText (lo hi : Fl) (v : Option Str) : Conv (Fl × Fl) :=
       | .val y _ =>
         if x.lt lo || y.lt lo || hi.lt x || hi.lt y then .err .BadValue else .val (x, y) 2
 
-/-- graph `align` letters: `n |= flag << i*2` after `i` was advanced, truncated to 8 bits -/
+/-- graph `align` letters: `n |= flag << (i-1)*2` after `i` was advanced (two bits per axis, at most four
+    letters), truncated to 8 bits -/
 def alignLetters : Str → Nat → Nat → Nat
   | [], _, n => n
   | c :: r, i, n =>
@@ -551,7 +552,7 @@ def alignLetters : Str → Nat → Nat → Nat
     else
       let l := lower c
       let flag := if l == 98 then 1 else if l == 101 then 2 else if l == 122 then 3 else 0
-      alignLetters r (i + 1) ((n ||| (flag <<< ((i + 1) * 2))) % 256)
+      alignLetters r (i + 1) ((n ||| (flag <<< (i * 2))) % 256)
 
 /-- graph `clip` letters -/
 def clipLetters : Str → Nat → Nat
@@ -690,6 +691,15 @@ def Kind.setProp (k : Kind) (tab : List NamedColor) (o : Obj) (name : Str) (src 
 
 /-- `mpt_<kind>_set(obj, "", 0)`: finalise (strings freed) and set the defaults -/
 def Kind.reset (k : Kind) (_o : Obj) : Obj := k.defaults
+
+/-- `mpt_<kind>_set(obj, "", src)` with a text source: the text is asked for the kind's own (pointer) type;
+    no or empty text converts to "no object" (the defaults are taken), any other text is no object -/
+def Kind.setEmptyName (k : Kind) (o : Obj) (src : Src) : Out :=
+  match src with
+  | .null => ⟨k.defaults, .ok 0⟩
+  | .text Option.none => ⟨k.defaults, .ok 0⟩
+  | .text (some []) => ⟨k.defaults, .ok 0⟩
+  | .text (some _) => ⟨o, .err .BadType⟩
 
 /-! ### getters -/
 
